@@ -117,6 +117,7 @@ type c03Flat struct {
 	thread  bool  // inside a thread body
 	path    []int // indices (in flat list) of the enclosing spawn ops
 	spawnOf int   // for fork/vfork/thread: the proc id of the body
+	ctx     int   // sequential context: every fork/vfork/thread body is its own (threads run concurrently with their creator)
 }
 
 func c03Run(c c03Case, root string, rec *vh.Recorder) error {
@@ -128,10 +129,11 @@ func c03Run(c c03Case, root string, rec *vh.Recorder) error {
 	var flat []c03Flat
 	procCount := 1
 	at := uint64(0xffffffffffffff9c)
-	var emit func(ops []c03Op, proc int, thread bool, path []int) error
-	emit = func(ops []c03Op, proc int, thread bool, path []int) error {
+	ctxCount := 1
+	var emit func(ops []c03Op, proc int, thread bool, path []int, ctx int) error
+	emit = func(ops []c03Op, proc int, thread bool, path []int, ctx int) error {
 		for _, op := range ops {
-			f := c03Flat{op: op, proc: proc, thread: thread, path: append([]int{}, path...)}
+			f := c03Flat{op: op, proc: proc, thread: thread, path: append([]int{}, path...), ctx: ctx}
 			m := fmt.Sprintf("m%d", op.K)
 			p := fmt.Sprintf("p%d", op.K)
 			switch op.Kind {
@@ -189,7 +191,9 @@ func c03Run(c c03Case, root string, rec *vh.Recorder) error {
 				f.spawnOf = bp
 				me := len(flat)
 				flat = append(flat, f)
-				if err := emit(op.Body, bp, thread || op.Kind == "thread", append(path, me)); err != nil {
+				bctx := ctxCount
+				ctxCount++
+				if err := emit(op.Body, bp, thread || op.Kind == "thread", append(path, me), bctx); err != nil {
 					return err
 				}
 				s.Add("}")
@@ -199,7 +203,7 @@ func c03Run(c c03Case, root string, rec *vh.Recorder) error {
 		}
 		return nil
 	}
-	if err := emit(c.Ops, 0, false, nil); err != nil {
+	if err := emit(c.Ops, 0, false, nil, 0); err != nil {
 		return err
 	}
 	s.Add(fmt.Sprintf("exit:%d", c.Exit))
@@ -275,7 +279,7 @@ func c03Run(c c03Case, root string, rec *vh.Recorder) error {
 	}
 
 	// 1. per-op checks
-	killedProc := map[int]int{} // proc id -> flat index of its first kill-type op in program order
+	killedProc := map[int]int{} // sequential context -> flat index of its first kill-type op in program order
 	var killTypeOps, certain int
 	anyBan, anyAllowEffect := false, false
 	for i, f := range flat {
@@ -283,12 +287,12 @@ func c03Run(c c03Case, root string, rec *vh.Recorder) error {
 		m, p := fmt.Sprintf("m%d", f.op.K), fmt.Sprintf("p%d", f.op.K)
 		ret, have := rep.R[f.idx]
 		after := false
-		if ki, ok := killedProc[f.proc]; ok && ki < i {
+		if ki, ok := killedProc[f.ctx]; ok && ki < i {
 			after = true
 		}
 		if !after {
 			for _, anc := range f.path {
-				if ki, ok := killedProc[flat[anc].proc]; ok && ki < anc {
+				if ki, ok := killedProc[flat[anc].ctx]; ok && ki < anc {
 					after = true
 				}
 			}
@@ -391,8 +395,8 @@ func c03Run(c c03Case, root string, rec *vh.Recorder) error {
 		}
 		if traced && (d == 2 || d == 3) {
 			killTypeOps++
-			if _, ok := killedProc[f.proc]; !ok {
-				killedProc[f.proc] = i
+			if _, ok := killedProc[f.ctx]; !ok {
+				killedProc[f.ctx] = i
 			}
 		}
 	}
